@@ -231,6 +231,26 @@ func mutationSubject(g *G, name string) (*genetics.Genome, *Pool, string) {
 		family += "/large-mostly-disabled"
 		grownReg = reg
 	}
+	if (name == "mutAddLink" || name == "mutConnectSensors" || name == "mutAddNode") && g.chance(0.12) {
+		// a sensor listed AFTER the neurons (legal hand-built / file layout; the shipped mutateAddLink test builds one):
+		// "the targets are the nodes behind the leading sensors" is then not "the non-sensor nodes"
+		gn = lateSensorGenome(g, g.intn(50))
+		reg := genetics.VerifNewEmptyPopulation()
+		maxInn, maxNode := int64(0), 0
+		for _, x := range gn.Genes {
+			if x.InnovationNum > maxInn {
+				maxInn = x.InnovationNum
+			}
+		}
+		for _, n := range gn.Nodes {
+			if n.Id > maxNode {
+				maxNode = n.Id
+			}
+		}
+		genetics.VerifPopSetCounters(reg, maxInn+int64(g.intn(2)), int32(maxNode+1+g.intn(2)))
+		grownReg = reg
+		family = "hand/late-sensor"
+	}
 	if name == "mutAddNode" && g.chance(0.15) {
 		// hand-built large genome in which almost every gene is ineligible for splitting (leaves the bias node, or is
 		// disabled): the retry-based selection of add-node (>= 15 genes) runs out of tries or finds the rare eligible gene
